@@ -502,6 +502,18 @@ V("element-iv-triggers-neutral-loop", "neutral", ["C08", "C01"], P + "element_iv
 V("element-iv-no-clamp-low", "break", ["C16"], P + "element_iv_propagator.py", "    i[MIN] = max(i[MIN], 0)\n", "", "index variable not clamped to the table from below", "compute_domains_element_iv")
 V("element-iv-clamp-len", "break", ["C16"], P + "element_iv_propagator.py", "    i[MAX] = min(i[MAX], len(l) - 1)\n", "    i[MAX] = min(i[MAX], len(l))\n", "index variable clamped one past the table", "compute_domains_element_iv")
 
+V("alldiff-scratch-2n1", "break", ["C16"], P + "alldifferent_propagator.py", "    bounds_nb = 2 * n + 2\n", "    bounds_nb = 2 * n + 1\n",
+  "scratch arrays one slot short (second sentinel forgotten)", "alldifferent_propagator")
+V("gcc-scratch-2n1", "break", ["C16"], P + "gcc_propagator.py", "    bounds_nb = 2 * n + 2\n", "    bounds_nb = 2 * n + 1\n", "gcc scratch arrays one slot short", "gcc_propagator")
+V("gcc-partial-sum-m5", "break", ["C16"], P + "gcc_propagator.py", "partial_sum = np.zeros((2, m + 6), dtype=np.int32)", "partial_sum = np.zeros((2, m + 5), dtype=np.int32)",
+  "partial-sum table one column short", "init_partial_sum")
+V("alldiff-init-loop-wide", "break", ["C16"], P + "alldifferent_propagator.py", "    for i in range(1, nb + 2):\n        t[i] = h[i] = i - 1", "    for i in range(1, nb + 3):\n        t[i] = h[i] = i - 1",
+  "initialisation loop runs one index past the bounds in use", "filter_lower")
+V("alldiff-ranks-short", "break", ["C16"], P + "alldifferent_propagator.py", "    ranks = np.zeros((n, 2), dtype=np.uint16)", "    ranks = np.zeros((n - 1, 2), dtype=np.uint16)",
+  "rank table one row short", "alldifferent_propagator")
+V("alldiff-neutral-temp-size", "neutral", ["C16"], P + "alldifferent_propagator.py", "    bounds_nb = 2 * n + 2\n", "    extra = 2\n    bounds_nb = n + n + extra\n", "size computed differently")
+V("gcc-neutral-bigger", "neutral", ["C16"], P + "gcc_propagator.py", "    bounds_nb = 2 * n + 2\n", "    bounds_nb = 2 * n + 4\n", "scratch arrays larger than needed")
+
 # --------------------------------------------------------------------------------------------- loop variants
 V("lexleq-loop-no-step", "break", ["C04"], P + "lexicographic_leq_propagator.py", None, None, "scan loop loses its step", "lexicographic",
   edits=[{"old": "        i += 1\n", "new": "        pass\n", "occurrence": 0}])
